@@ -439,6 +439,19 @@ def defScore (fn : ScoreFn) (cfg : Cfg) (q t : Cloud) (mode : Mode) : Option Sco
         | .max => some (.one (pyMax f r))
         | .both => some (.two f r)
 
+/-- Assemble a labelled matrix from ids and per-pair scores (`both`: two rows per query). -/
+def mkFrame (mode : Mode) (qids tids : List Int) (res : List (List Score)) : Frame :=
+  if mode = .both then
+    ⟨(qids.map fun i => [(i, "forward"), (i, "reverse")]).flatten, tids,
+     (res.map fun row => [row.map Score.fwd, row.map Score.rev]).flatten⟩
+  else ⟨qids.map fun i => (i, ""), tids, res.map fun row => row.map Score.fwd⟩
+
+/-- The score matrix by the definition: entry `(i, j)` is the score of query `i` against target `j`,
+rows and columns labelled by the ids in input order. -/
+def defNblast (fn : ScoreFn) (cfg : Cfg) (q t : List Dotprops) (mode : Mode) : Option Frame :=
+  (allSome (q.map fun qn => allSome (t.map fun tn => defScore fn cfg qn.pts tn.pts mode))).map
+    (mkFrame mode (q.map (·.id)) (t.map (·.id)))
+
 /-- `limit_dist='auto'`: the clipped table's last boundary is `inf`, so navis takes the second highest
 boundary times 1.05 (`c105` = the double nearest to 1.05). -/
 def autoLimit (t : Lookup2d) (c105 : Rat) : Option Rat :=
